@@ -21,7 +21,7 @@ CLAIMED = {
         technique="deterministic simulation with fault injection; bounded-liveness and exactly-once-callback oracles on a virtual clock",
         text="Seeded exploration of processor outcome scripts (ok, permanent failure, retry with any remainder, panic in call or future, latency), panicking watchers, early sender drop; oracles: bounded attempts, non-decreasing bounded back-off reset per batch, callbacks exactly once, receiver drains and terminates within a step budget once the sender is dropped.",
         note="Trusted: step budget (2500 controller steps after close) is generous relative to the retry budget; retuned constants do not alarm (bounds are 64 attempts / 5 min)."),
-    "C09": dict(engine="chan-inline + chan-threads + file-e2e + otlp-delivery", design="5/C09",
+    "C09": dict(engine="chan-inline + chan-threads + calling-contexts + file-e2e + otlp-delivery", design="5/C09",
         technique="deterministic simulation; reference-queue oracle compared with a state snapshot after every operation; lock-held-at-seam detector",
         text="Seeded exploration with small capacities, stalled / absent receivers and all send variants; after every operation the real queue length (snapshot hook and queue_length metric) must equal the reference queue and never exceed capacity; overflow keeps the newest item and counts once; try_send / async send hand the same item back, and only at or after expiry.",
         note="Trusted: verif_snapshot() reads the same fields the channel uses; virtual-time expiry comparisons are exact."),
@@ -32,7 +32,7 @@ CLAIMED.update({
         technique="deterministic simulation with fault injection: per generated batch history, every filesystem call index x every fault kind (error, EINTR, short/zero/torn write, crash before/after/mid-write with crash-recovery variants) plus sampled multi-fault sequences, against a durable-view oracle",
         text="For each seeded batch history the real emit_file worker runs over an in-memory filesystem that separates written from synced content and volatile from durable directory entries. One fault-free pass counts the calls (strict oracle), then a single fault of every applicable kind is injected at every call index (exhaustive over single faults for that history), then 2-4-fault sequences are sampled. After every acknowledged batch each event must be a complete record in what the worst-case crash would leave; after every call and crash every record of every file must be an event, empty, or a truncated prefix ending exactly where a write was interrupted. Fault enumeration per sampled history is the right level: the property quantifies over call index x fault kind, which is finite per history and is covered completely; histories themselves are sampled.",
         note="Trusted: the filesystem model (a directory entry is durable only after sync_parent; un-synced suffixes may be lost in any part; deletions not followed by a directory sync may be undone); the harness re-submits a retry remainder like the channel does, a bounded number of times; events whose file the set's own retention deleted are exempt from the durability claim. StdFilesystem and real disks are not exercised under faults (fsim-realfs under C11 compares the model with them fault-free)."),
-    "C11": dict(engine="fsim-rolling + fsim-realfs", design="5/C11",
+    "C11": dict(engine="fsim-rolling + fsim-realfs + file-e2e", design="5/C11",
         technique="deterministic simulation: generated configurations x directory contents x clock trajectories x batch histories with restarts, real worker against a reference rolling policy and the filesystem call log",
         text="Seeded exploration of configurations (templates with dotted / sibling-extended prefixes, roll interval, max_files 1..6/32, size limits, reuse), pre-existing directory contents (own files of earlier runs, sibling sets, strangers), clock trajectories (zero, forward, period-crossing, backward) and batch histories with restarts and overflow-built batches. A reference policy decides per batch whether a new file must start; the call log is checked for exactly one file written, strict name grammar with the period and counter of the clock reading, retention bound and order, no panic, and no touch of any file outside the set.",
         note="Trusted: the reference rolling policy and the strict name grammar (prefix.period.counter.id.ext with period of any of the three roll shapes); order-related rules apply only while the generated clock never steps back. The fsim-realfs engine additionally executes each generated plan over the production StdFilesystem in a scratch directory and demands byte-identical directory contents and batch outcomes after every step, so the filesystem model the verdicts rest on is itself checked against the real thing (fault-free only)."),
@@ -142,9 +142,9 @@ def main():
              "kind_free_text": "tagged racing initialisers/observers over AmbientSlot run under cargo miri (seeded scheduler, many seeds x preemption rates), driven by tools/c20.py"},
             {"name": "chan-threads", "path": "/verif/sim/src/chan_threads.rs", "serves_properties": ["C06", "C07", "C08", "C09"],
              "kind_free_text": "real sync.rs entry points on real OS threads under a baton-passing scheduler with virtual time, spurious wake-ups and early timers"},
-            {"name": "calling-contexts", "path": "/verif/sim/src/ctx_probes.rs", "serves_properties": ["C08"],
+            {"name": "calling-contexts", "path": "/verif/sim/src/ctx_probes.rs", "serves_properties": ["C08", "C09"],
              "kind_free_text": "deterministic probes of the blocking entry points' immediate paths from ten calling contexts (plain thread, tokio current-thread, multi-thread block_on / worker / spawn_blocking, LocalSet on either flavour, nested block_in_place, Runtime::enter)"},
-            {"name": "file-e2e", "path": "/verif/sim/src/file_e2e.rs", "serves_properties": ["C06", "C07", "C08", "C09", "C10"],
+            {"name": "file-e2e", "path": "/verif/sim/src/file_e2e.rs", "serves_properties": ["C06", "C07", "C08", "C09", "C10", "C11"],
              "kind_free_text": "real FileSet(s) (JSON writer, channel, worker thread, blocking_flush, And) over the simulated filesystem in thread mode with stalls and retryable faults"},
             {"name": "otlp-delivery", "path": "/verif/sim/src/otlp_sim.rs", "serves_properties": ["C12", "C07", "C08", "C09"],
              "kind_free_text": "real Otlp emitter over SimStream pipes against a scripted HTTP/1.1 + h2 collector on a simulated executor"},
